@@ -23,8 +23,8 @@ inductive Err
   | election1 (code inst reason : List Char) (inner : Err)
   | tokval0 (reason loc kv : List Char)
   | tokval1 (reason loc kv : List Char) (inner : Err)
-  | validation0 (field value reason : List Char)
-  | validation1 (field value reason : List Char) (inner : Err)
+  | validation0 (field : List Char) (value : Option (List Char)) (reason : List Char)   -- Value == nil ↦ none
+  | validation1 (field : List Char) (value : Option (List Char)) (reason : List Char) (inner : Err)
   deriving Repr, DecidableEq
 
 def kNats : List Char := "nats: ".toList
@@ -43,6 +43,7 @@ def kInvalidCfg : List Char := "invalid configuration: field ".toList
 def kEq : List Char := " = ".toList
 
 def optPart (pre s : List Char) : List Char := if s.isEmpty then [] else pre ++ s
+def optVal (v : Option (List Char)) : List Char := match v with | none => [] | some x => kEq ++ x
 
 /-- `Error()` -/
 def Err.text : Err → List Char
@@ -66,9 +67,9 @@ def Err.text : Err → List Char
         ((if !loc.isEmpty && !kv.isEmpty then kLocal ++ (loc ++ (kKv ++ (kv ++ kRParen))) else []) ++
           (kColon ++ e.text)))
   | .validation0 field value reason =>
-      kInvalidCfg ++ (field ++ (optPart kEq value ++ optPart kColon reason))
+      kInvalidCfg ++ (field ++ (optVal value ++ optPart kColon reason))
   | .validation1 field value reason e =>
-      kInvalidCfg ++ (field ++ (optPart kEq value ++ (optPart kColon reason ++ (kColon ++ e.text))))
+      kInvalidCfg ++ (field ++ (optVal value ++ (optPart kColon reason ++ (kColon ++ e.text))))
 
 /-- `errors.Is(e, target)` for the targets the classifiers use (`*TimeoutError` is never a target
     there, so `TimeoutError.Is` only ever answers false and unwrapping continues). -/
